@@ -390,4 +390,82 @@ def fillStep (g : Graph) (p : ThreadParams) (ps : PathStore) (a : Read) : PathSt
 def fillPaths (g : Graph) (p : ThreadParams) (reads : List Read) : PathStore :=
   reads.foldl (fillStep g p) PathStore.empty
 
+/-! ## IntronGraph.get_outgoing / get_incoming and IntronPathProcessor.thread_ends / thread_starts
+
+The vertices a read path may start / end with are the terminal vertices attached to its first / last intron:
+pairs `(VERTEX_polya | VERTEX_read_end, position)` in `outgoing_edges`, `(VERTEX_polyt | VERTEX_read_start, position)`
+in `incoming_edges`. -/
+
+/-- the `v_type` filter of `get_outgoing` / `get_incoming`: `none` = intron vertices (`v[0] >= 0`) -/
+def vertexOfType (vtype : Option Int) (v : Iv) : Bool :=
+  match vtype with
+  | none => decide (0 ≤ v.1)
+  | some t => decide (v.1 = t)
+
+/-- `IntronGraph.get_outgoing(intron, v_type)` (sorted in tuple order) -/
+def getOutgoing (g : Graph) (intron : Iv) (vtype : Option Int) : List Iv :=
+  sortIv ((outOf g intron).filter (vertexOfType vtype))
+
+/-- `IntronGraph.get_incoming(intron, v_type)` -/
+def getIncoming (g : Graph) (intron : Iv) (vtype : Option Int) : List Iv :=
+  sortIv ((incOf g intron).filter (vertexOfType vtype))
+
+/-- `sorted(..., key=lambda x: x[1])` (stable) -/
+def sortByPos (l : List Iv) : List Iv := insSort (fun a b => decide (a.2 ≤ b.2)) l
+
+/-- `max([intron[0] for intron in l])` / `min([intron[1] for intron in l])` of a non-empty list -/
+def maxStart (a : Iv) (t : List Iv) : Int := t.foldl (fun m v => max m v.1) a.1
+def minEnd (a : Iv) (t : List Iv) : Int := t.foldl (fun m v => min m v.2) a.2
+
+/-- the last two branches of `thread_ends` on the position-sorted candidates, given last-first -/
+def pickEnd (apa : Int) (endPos : Int) (trusted : Bool) : List Iv → Option Iv
+  | [] => none
+  | last :: rest =>
+    if trusted && decide (endPos ≥ last.2) && decide (last.1 = VERTEX_read_end) then some last
+    else if !trusted && decide (endPos ≤ last.2 + apa) &&
+        (match rest with | [] => true | prev :: _ => decide (endPos > prev.2)) then some last
+    else none
+
+/-- `IntronPathProcessor.thread_ends(intron, end, trusted)` -/
+def threadEnds (g : Graph) (delta apa : Int) (intron : Iv) (endPos : Int) (trusted : Bool) : Option Iv :=
+  let polyas := getOutgoing g intron (some VERTEX_polya)
+  match (if trusted then polyas.find? (fun v => decide (iabs (v.2 - endPos) ≤ apa)) else none) with
+  | some v => some v
+  | none =>
+    let inside : Bool := match getOutgoing g intron none with
+      | [] => false
+      | a :: t => !trusted && decide (endPos ≤ maxStart a t - 1 + delta)
+    if inside then none
+    else pickEnd apa endPos trusted (sortByPos (getOutgoing g intron (some VERTEX_read_end) ++ polyas)).reverse
+
+/-- the last two branches of `thread_starts` on the position-sorted candidates -/
+def pickStart (startPos : Int) (trusted : Bool) : List Iv → Option Iv
+  | [] => none
+  | first :: rest =>
+    if trusted && decide (startPos ≤ first.2) && decide (first.1 = VERTEX_read_start) then some first
+    else if !trusted && decide (startPos ≥ first.2) &&
+        (match rest with | [] => true | second :: _ => decide (startPos < second.2)) then some first
+    else none
+
+/-- `IntronPathProcessor.thread_starts(intron, start, trusted)` -/
+def threadStarts (g : Graph) (delta apa : Int) (intron : Iv) (startPos : Int) (trusted : Bool) : Option Iv :=
+  let polyts := getIncoming g intron (some VERTEX_polyt)
+  match (if trusted then polyts.find? (fun v => decide (iabs (v.2 - startPos) ≤ apa)) else none) with
+  | some v => some v
+  | none =>
+    let inside : Bool := match getIncoming g intron none with
+      | [] => false
+      | a :: t => !trusted && decide (startPos ≥ minEnd a t + 1 - delta)
+    if inside then none
+    else pickStart startPos trusted (sortByPos (getIncoming g intron (some VERTEX_read_start) ++ polyts))
+
+/-- the path processor of a graph: `thread_ends` / `thread_starts` as the code computes them -/
+def graphThreadParams (g : Graph) (delta apa : Int) (requiresPolya : Bool) : ThreadParams :=
+  { ends := threadEnds g delta apa, starts := threadStarts g delta apa, requiresPolya := requiresPolya }
+
+/-- `IntronPathStorage.fill` with the real `thread_ends` / `thread_starts`: the enumeration of the read paths and of the
+    full-length paths (starting vertex, introns, terminal vertex) handed to `construct_fl_isoforms` -/
+def fillGraphPaths (g : Graph) (delta apa : Int) (requiresPolya : Bool) (reads : List Read) : PathStore :=
+  fillPaths g (graphThreadParams g delta apa requiresPolya) reads
+
 end IsoVerif.Model.C04
